@@ -175,7 +175,25 @@ func (g *Gen) instr(in ssa.Instruction, st *State, reach string) bool {
 		}
 		g.unmodelled["channel operation"] = true
 		if v, ok := in.(ssa.Value); ok {
-			g.defineHavoc(v, "channel")
+			sv := g.defineHavoc(v, "channel")
+			if sel, isSel := in.(*ssa.Select); isSel && len(sv.Tup) > 0 {
+				// the index of the chosen case: -1 (default) only for a non-blocking select, and never
+				// -1 when one of its receive cases reads a channel that was closed before the call
+				// started (a receive from a closed channel is always ready)
+				idx := sv.Tup[0].S
+				lo := "0"
+				if !sel.Blocking {
+					lo = "(- 1)"
+				}
+				g.addFact(fmt.Sprintf("(and (<= %s %s) (< %s %d))", lo, idx, idx, len(sel.States)))
+				for _, cs := range sel.States {
+					if cs.Dir == types.RecvOnly {
+						ch := g.rvalue(g.val(cs.Chan, st), st, in.Pos())
+						g.declareFun("chan.closed", []string{"Int"}, "Bool")
+						g.addFact(fmt.Sprintf("(=> (chan.closed %s) (not (= %s (- 1))))", ch, idx))
+					}
+				}
+			}
 		}
 		if g.con.Opts["channels"] == "quiet" {
 			// sequential reading: a channel operation transfers a value and changes no modelled heap
